@@ -330,6 +330,39 @@ def r3_r4(ctx: Ctx, pf: FuncInfo) -> None:
                   f'detector date format {c_!r} would be split / cut by the reader: the suggested `{{date:{c_}}}` is not accepted by parse_format_string (it splits the format string on commas)')
     if dfmt is None:
         dfmt = cands[0]
+    # the format the suggestion prints is the detector's: if cmd_inspect (or a helper of its module) overrides <spec>.date_format, every
+    # strptime-style literal of that module that sits in a table or is returned is a possible value and must survive the comma split too
+    cim = ci.module
+    overrides = [(g, a_) for g in proj.all_funcs() if g.module is cim for a_ in all_nodes(g.node)
+                 if isinstance(a_, (ast.Assign, ast.AugAssign, ast.AnnAssign)) and any(
+                     isinstance(t, ast.Attribute) and t.attr == 'date_format' for t in (a_.targets if isinstance(a_, ast.Assign) else [a_.target]))]
+    overrides += [(g, c_) for g in proj.all_funcs() if g.module is cim for c_ in all_nodes(g.node)
+                  if isinstance(c_, ast.Call) and call_name(c_) in ('setattr', 'replace', '_replace') and any(
+                      isinstance(x, ast.Constant) and x.value == 'date_format' for x in c_.args) or isinstance(c_, ast.Call) and any(k.arg == 'date_format' for k in c_.keywords)]
+    if not overrides:
+        ctx.ok('C18.R3', ci, "the suggestion's date format is the detector's: no store into <spec>.date_format in the inspect module", construct='date-format-provenance')
+    for g, a_ in overrides:
+        val = getattr(a_, 'value', None)
+        if isinstance(val, ast.Constant) and isinstance(val.value, str):
+            lits = [(val.value, val)]
+        else:
+            lits = []
+            for h in [x for x in proj.all_funcs() if x.module is cim]:
+                for n in all_nodes(h.node):
+                    if isinstance(n, ast.Constant) and isinstance(n.value, str) and re.search(r'%[a-zA-Z]', n.value) and len(n.value) < 24 \
+                            and re.fullmatch(r'[%A-Za-z0-9 ,./:\-]+', n.value):
+                        par = next(iter(ancestors(n)), None)
+                        if isinstance(par, (ast.Tuple, ast.List, ast.Dict, ast.Set, ast.Return, ast.Assign)):
+                            lits.append((n.value, n))
+        if not lits:
+            ctx.unknown('C18.R3', g, f'`{src(a_)[:60]}` overrides the date format with a value whose literals were not found')
+            continue
+        bad = [(v, n) for v, n in lits if ',' in v or '}' in v]
+        ctx.check(not bad, 'C18.R3', g, 'date-format-provenance',
+                  f'`{src(a_)[:60]}` (line {a_.lineno}) overrides the date format; all {len(lits)} candidate literals are comma- and brace-free',
+                  f'`{src(a_)[:60]}` (line {a_.lineno}) replaces the detector\'s date format by one observed in the data, and the candidate '
+                  f'{bad[0][0]!r} (line {bad[0][1].lineno}) contains a comma / brace: the suggested `{{date:{bad[0][0]}}}` is split by parse_format_string and rejected, '
+                  f'so the suggestion does not round-trip for such files' if bad else '', a_)
     # suggestion loop
     # for i in range(<last column> + 1): the bound is a local computed with max(…) over the detected columns (whatever it is called)
     loops = []
